@@ -136,6 +136,12 @@ func genStream(r *rand.Rand) stream {
 		}
 		// the payload may contain "8=" and "9=" but no SOH-prefixed 10= unless hostile
 		rest := fixwire.Fields{{Tag: 35, Val: "D"}, {Tag: 34, Val: fmt.Sprint(k)}, {Tag: 58, Val: string(fill)}}
+		if r.Intn(6) == 0 {
+			// a data field carried with its length whose content looks like a trailer: BodyLength spans it, so the
+			// message is well-formed and the frame ends at the real CheckSum
+			d := "a\x0110=" + core.Pick(r, "000", "123", "9") + "\x01b" + core.Pick(r, "", "\x0110=0", "\x018=FIX.4.2\x019=5\x01")
+			rest = append(rest, fixwire.Field{Tag: 95, Val: fmt.Sprint(len(d))}, fixwire.Field{Tag: 96, Val: d})
+		}
 		m := fixwire.Build("FIX.4.2", rest)
 		switch {
 		case len(m) > 8192:
